@@ -48,15 +48,18 @@ def main():
         listed = [clients[i] for i in order]
         fn = None
         for call in range(case.get('calls', 1)):
-          if call > 0:
-            # the caller updates the shared input between calls: numpy leaves in place (same objects), jax leaves rebound
-            if case.get('jax_inputs', True):
-              shared['base'] = shared['base'] + 1
-              shared['k'] = shared['k'] + 1
-            else:
-              shared['base'] += 1
-              shared['k'] += 1
-          snap = jax.tree_util.tree_map(lambda x: np.array(x), (shared, [(b, ci) for _, b, ci in listed]))
+          try:
+            if call > 0:
+              # the caller updates the shared input between calls: numpy leaves in place (same objects), jax leaves rebound
+              if case.get('jax_inputs', True):
+                shared['base'] = shared['base'] + 1
+                shared['k'] = shared['k'] + 1
+              else:
+                shared['base'] += 1
+                shared['k'] += 1
+            snap = jax.tree_util.tree_map(lambda x: np.array(x), (shared, [(b, ci) for _, b, ci in listed]))
+          except RuntimeError:
+            break    # an earlier call deleted (donated) a caller array: already recorded as inputs_alive = False
           rec = {'nb': nb, 'backend': backend, 'with_step_result': with_res, 'order': order, 'yields': [], 'error': None,
                  'call': call, 'base': 1000. + call, 'k': 7 + call}
           try:
